@@ -18,12 +18,24 @@ class VirtualDateTime(_dt.datetime):
         _reads[0] += 1
         src = _source[0]
         secs = src() if src is not None else 0.0
-        d = EPOCH + _dt.timedelta(seconds=secs)
-        return cls(d.year, d.month, d.day, d.hour, d.minute, d.second, d.microsecond)
+        # a plain datetime (not a subclass instance): consumers such as orjson only accept the exact type
+        return EPOCH + _dt.timedelta(seconds=secs)
 
     @classmethod
     def utcnow(cls):
         return cls.now()
+
+    @classmethod
+    def strptime(cls, date_string, fmt):
+        return _dt.datetime.strptime(date_string, fmt)
+
+    @classmethod
+    def fromisoformat(cls, s):
+        return _dt.datetime.fromisoformat(s)
+
+    @classmethod
+    def fromtimestamp(cls, *a, **kw):
+        return _dt.datetime.fromtimestamp(*a, **kw)
 
 
 def set_source(fn):
